@@ -48,7 +48,18 @@ def setup(tier):
     pass
 
 
-def engine():
+# documented constructor options of LayoutEngine, one at a time (not the detection threshold: the painted ridges are one pixel thin and
+# the smoothed response of such a ridge peaks below 0.5, so a higher threshold legitimately finds nothing)
+ENGINE_CFGS = [{}, {'smooth_line_predictions': False}, {'line_end_weight': 0.5}, {'vertical_line_connection_range': 3}]
+
+
+def engine(cfg=0):
+    if cfg:
+        import copy
+        e = copy.copy(engine())
+        for k, v in ENGINE_CFGS[cfg].items():
+            setattr(e, k, v)
+        return e
     if 'e' not in _ENG:
         from pero_ocr.layout_engines.cnn_layout_engine import LayoutEngine
         e = object.__new__(LayoutEngine)
@@ -98,6 +109,8 @@ def run_shard(shard, ctx, tier):
         for ds in b['multi_ds']:
             for g in ALPHA8:
                 guarded_check(mod, {'ridges': [[0] + list(f), [1] + list(g)], 'ds': ds}, ctx)
+                for ec in range(1, len(ENGINE_CFGS)):
+                    guarded_check(mod, {'ridges': [[0] + list(f), [1] + list(g)], 'ds': ds, 'ecfg': ec}, ctx)
                 guarded_check(mod, {'ridges': [[2, f[0], min(f[1], 2)] + list(f[2:]), [2, 1, 1, g[2], g[3], g[4], g[5], 150]], 'ds': ds}, ctx)   # same row, second starts at x=150
                 for h in ALPHA8:
                     guarded_check(mod, {'ridges': [[0] + list(f), [1] + list(g), [3] + list(h)], 'ds': ds}, ctx)
@@ -223,11 +236,14 @@ def check_lines(b_list, h_list, t_list, ridges, ds, ctx, K, desc, case):
 def check_parse(case, ctx):
     ridges = [ridge_geometry(r, MAP_SHAPE) for r in case['ridges']]
     ds = case['ds']
-    ctx.state((str(case['ridges']), ds))
+    ec = case.get('ecfg', 0)
+    ctx.state((str(case['ridges']), ds, ec))
     maps = paint(ridges, MAP_SHAPE)
-    b_list, h_list, t_list = engine().parse(maps.copy(), ds)
+    b_list, h_list, t_list = engine(ec).parse(maps.copy(), ds)
     ctx.executed()
-    desc = f'ridges {ridges}, ds={ds}'
+    desc = f'ridges {ridges}, ds={ds}' + (f', engine options {ENGINE_CFGS[ec]}' if ec else '')
+    if ec:
+        ctx.tag('non-default-engine-options')
     if check_lines(b_list, h_list, t_list, ridges, ds, ctx, f'{ID}/parse', desc, case):
         ctx.outcome((len(b_list), tuple(len(b) for b in b_list)))
         if len(ridges) > 1:
@@ -449,5 +465,5 @@ def describe(tier):
         'assumptions': ['end points within 3 map px, rows within (1 + thickness/2) map px (+ slope x 3), heights exact for constant maps',
                         'the rotated pass is compared with the exact inverse rot90 of the layout decoded from the rotated image, tolerance 1 px'],
         'min_nontrivial': 100, 'required_tags': ['several-ridges', 'with-end-point-responses', 'sloped-ridges', 'rotated-non-square-pages',
-                          'two-lines-starting-on-the-same-row', 'print-size-changes-between-pages', 'adaptive-factor-changed', 'page-exceeds-the-pixel-budget', 'more-than-255-ridges'],
+                          'two-lines-starting-on-the-same-row', 'print-size-changes-between-pages', 'adaptive-factor-changed', 'page-exceeds-the-pixel-budget', 'more-than-255-ridges', 'non-default-engine-options'],
     }
